@@ -1,4 +1,50 @@
-(* Props/C10.v — C10: a sub-query renders the same wherever it is embedded (theorems are added by Proofs/Flags.v; see below). *)
-From PT Require Import Base.Str Model.Types Model.Value Model.Interval Model.Syntax Gen.Ctx Gen.Enums Gen.Prec Gen.Placeholders Model.Render.
+(* Props/C10.v — a sub-query renders the same wherever it is embedded.  Property theorems only.
+
+   C10_embedded_is_standalone: for EVERY statement q that can stand in an embedding position, every context c0 handed
+   down by the position (any flags, any dialect conventions) and every parameterizer state p, the text emitted is the
+   stand-alone rendering of q under the same dialect conventions (all four position flags off), with the placeholders
+   numbered from p on, wrapped in one pair of parentheses iff the position asks for them (subquery) and followed by
+   q's alias iff the position defines one (with_alias).  Nothing else of c0 reaches the clauses.
+   C10_position_flags_do_not_reach_the_clauses: the context of the clauses is a function of c0's dialect conventions only.
+   C10_setop_*: the same for set operations (their operands, ORDER BY and row limit). *)
+From PT Require Import Base.Str Model.Types Model.Value Model.Interval Model.Syntax
+     Gen.Ctx Gen.Enums Gen.Prec Gen.Placeholders Model.Render Proofs.QueryEq.
 Open Scope N_scope.
-Example C10_nonvacuous : True. Proof. exact I. Qed.
+
+Theorem C10_embedded_is_standalone : forall (c0 : ctx) (p : pz) (q : query),
+  selectable q = true ->
+  render_query c0 p q =
+    match render_query (standalone c0) p q with
+    | Ok (s, p') => Ok ((if complete q then embed c0 q s else s), p')
+    | Exn e => Exn e
+    end.
+Proof. exact embedded_is_standalone. Qed.
+Print Assumptions C10_embedded_is_standalone.
+
+Theorem C10_position_flags_do_not_reach_the_clauses : forall (q : query) (c0 c0' : ctx),
+  quote_char c0 = quote_char c0' -> secondary_quote_char c0 = secondary_quote_char c0' -> alias_quote_char c0 = alias_quote_char c0' ->
+  dialect c0 = dialect c0' -> as_keyword c0 = as_keyword c0' -> groupby_alias c0 = groupby_alias c0' -> orderby_alias c0 = orderby_alias c0' ->
+  clause_ctx q (adjust_ctx q c0) = clause_ctx q (adjust_ctx q c0').
+Proof. exact clause_ctx_conventions_only. Qed.
+Print Assumptions C10_position_flags_do_not_reach_the_clauses.
+
+Theorem C10_setop_embedded_is_standalone : forall (c0 : ctx) (p : pz) base ops obs lim off alias,
+  render c0 p (TSetOp base ops obs lim off alias) =
+    match render (standalone c0) p (TSetOp base ops obs lim off alias) with
+    | Ok (s, p') => Ok (alias_if (with_alias c0) (setop_ctx c0) (paren_if (subquery c0) s) alias, p')
+    | Exn e => Exn e
+    end.
+Proof. exact setop_embedded_is_standalone. Qed.
+Print Assumptions C10_setop_embedded_is_standalone.
+
+(* non-vacuity: a SELECT with an aliased term in WHERE, embedded with both flags on *)
+Example C10_nonvacuous :
+  let t := MkTRef true (L "t") [] None 0 in
+  let q := MkQ BGeneric (MkFl (Some (L "sq")) false false false false false false false false false false false false true [] [] None WPlain)
+             (TCons (TTable t NoT NoT) TNil) WNil (TCons (TField (L "a") (Some t) None) TNil) TNil TNil TNil RNil
+             (SomeT (TBasic (CEq Eq) (TField (L "b") (Some t) (Some (L "leak"))) (TVal WPlain (VInt 1) (L "v1") None true) None))
+             NoT NoT GNil ONil JNil NoT NoT UNil NoT NoT TNil CUNil NoT NoT TNil TNil in
+  selectable q = true /\ complete q = true /\
+  render_query (set_with_alias true (set_subquery true (set_with_namespace true (ctx_of BGeneric)))) None q
+    = Ok (L "(SELECT ""a"" FROM ""t"" WHERE ""b""=1) ""sq""", None).
+Proof. vm_compute. repeat split. Qed.
